@@ -332,3 +332,88 @@ def leaves(msg, prefix=""):
         else:
             out.add(p)
     return out
+
+
+# -- AIP-4222 routing reference ---------------------------------------------------
+
+def routing_params(m):
+    if not m.options.HasExtension(routing_pb2.routing):
+        return None
+    return [(p.field, p.path_template) for p in m.options.Extensions[routing_pb2.routing].routing_parameters]
+
+
+def _routing_segments(tmpl):
+    """[(segment pattern, in_capture)], key  for a template with <= 1 named segment."""
+    m = re.search(r"\{([^}=]+)(?:=([^}]*))?\}", tmpl)
+    if not m:
+        return [(s, False) for s in tmpl.split("/")], None
+    key, sub = m.group(1), (m.group(2) if m.group(2) is not None else "*")
+    pre, post = tmpl[:m.start()], tmpl[m.end():]
+    segs = []
+    if pre:
+        segs += [(s, False) for s in pre.rstrip("/").split("/")]
+    segs += [(s, True) for s in sub.split("/")]
+    if post:
+        segs += [(s, False) for s in post.lstrip("/").split("/")]
+    return segs, key
+
+
+def routing_capture(tmpl, value):
+    """(key, captured text) if value matches the template completely, else (key, None).
+    '*' = one non-empty segment, '**' = zero or more segments."""
+    segs, key = _routing_segments(tmpl)
+    v = value.split("/")
+
+    def rec(i, j, cap):
+        if i == len(segs):
+            return cap if j == len(v) else None
+        pat, incap = segs[i]
+        if pat == "**":
+            for k in range(j, len(v) + 1):
+                r = rec(i + 1, k, cap + (v[j:k] if incap else []))
+                if r is not None:
+                    return r
+            return None
+        if j >= len(v):
+            return None
+        if pat == "*":
+            if v[j] == "":
+                return None
+        elif pat != v[j]:
+            return None
+        return rec(i + 1, j + 1, cap + ([v[j]] if incap else []))
+
+    cap = rec(0, 0, [])
+    if cap is None:
+        return key, None
+    return key, "/".join(cap)
+
+
+def routing_expected(msg, params):
+    out = {}
+    for field, tmpl in params:
+        v = get_path(msg, field)
+        if not v:
+            continue
+        if not tmpl:
+            out[field] = v
+            continue
+        key, cap = routing_capture(tmpl, v)
+        if cap:
+            out[key or field] = cap
+    return out
+
+
+def implicit_expected(msg, m):
+    """Pairs for every variable of the first HTTP pattern (get, put, post, delete, patch, custom)."""
+    if not m.options.HasExtension(annotations_pb2.http):
+        return None
+    h = m.options.Extensions[annotations_pb2.http]
+    for path in (h.get, h.put, h.post, h.delete, h.patch, h.custom.path):
+        if path:
+            out = {}
+            for var, _ in path_vars(path):
+                v = get_path(msg, var)
+                out[var] = "" if v is None else (str(v).lower() if isinstance(v, bool) else str(v))
+            return out
+    return None
